@@ -88,7 +88,7 @@ type Org struct {
 	K1    string `gorm:"primaryKey"`
 	K2    string `gorm:"primaryKey"`
 	Name  string
-	Parts []Part `gorm:"many2many:org_parts"`
+	Parts []*Part `gorm:"many2many:org_parts"` // pointer elements
 }
 
 type Part struct {
